@@ -83,7 +83,7 @@ def scenario(big: bool = False) -> Any:
         "fail_saves": st.sets(st.integers(0, 11 if big else 6), max_size=3),
         # persistent failures: the result of these messages can never be saved, whatever is retried; and what the backend raises
         "fail_save_ids": st.one_of(st.just([]), st.just([]), st.lists(st.integers(0, 5), max_size=2, unique=True).map(sorted)),
-        "save_exc": st.sampled_from(["RuntimeError", "RuntimeError", "ConnectionError", "TimeoutError", "OSError", "ConnectionResetError", "ValueError"]),
+        "save_exc": st.sampled_from(["RuntimeError", "RuntimeError", "ConnectionError", "TimeoutError", "OSError", "ConnectionResetError", "ValueError", "BadStrError"]),
         "save_latency": st.sampled_from([0.0, 0.0, 0.05]),
         "backend_late": st.sampled_from([False, False, True]),     # backend installed after the receiver was constructed
     }).map(fin)
